@@ -221,6 +221,8 @@ func runC11(ctx *Ctx) error {
 		want := modelCalls(mout[i])
 		if strings.Join(want, ";") != strings.Join(straced[i], ";") {
 			res.Fail(Failure{Kind: "correspondence", Site: "syscall-sequence", Case: descr[i], Impl: strings.Join(straced[i], "; "), Model: strings.Join(want, "; ")})
+			// failing-input search: crash points of the OBSERVED call sequence, judged by the real recovery code
+			c11ObservedCrashSearch(ctx, root, i, descr[i], straced[i])
 		}
 		if i == 1 {
 			res.Sample(map[string]interface{}{"operation": descr[i], "strace": straced[i]})
@@ -389,4 +391,71 @@ func runC11(ctx *Ctx) error {
 		os.RemoveAll(dir)
 	}
 	return nil
+}
+
+// c11ObservedCrashSearch replays prefixes of an observed call sequence (with partial writes) on a
+// mailbox holding an older message under the same MID and asks the real loader whether every
+// folder still loads and no incomplete message is visible.
+func c11ObservedCrashSearch(ctx *Ctx, root string, idx int, op string, calls []string) {
+	res := ctx.Res
+	mid := "MSG" + fmt.Sprint(idx)
+	newB, _ := c11Message(mid, 2000).Bytes()
+	oldB, _ := c11Message(mid, 100).Bytes()
+	for k := 0; k <= len(calls); k++ {
+		partials := []int{-1}
+		if k < len(calls) && strings.HasPrefix(calls[k], "write ") {
+			partials = []int{0, 1, len(newB) / 2, len(newB) - 1}
+		}
+		for _, j := range partials {
+			dir := filepath.Join(root, fmt.Sprintf("obs%d_%d_%d", idx, k, j))
+			for _, f := range append(folderNames, "archive") {
+				os.MkdirAll(filepath.Join(dir, f), 0o755)
+			}
+			folder := "in"
+			if op == "addout" || op == "setsent" {
+				folder = "out"
+			}
+			os.WriteFile(filepath.Join(dir, folder, mid+".b2f"), oldB, 0o644)
+			apply := func(c string, limit int) {
+				f := strings.Fields(c)
+				switch f[0] {
+				case "open":
+					os.WriteFile(filepath.Join(dir, f[1]), nil, 0o644)
+				case "write":
+					n := len(newB)
+					if limit >= 0 && limit < n {
+						n = limit
+					}
+					fh, err := os.OpenFile(filepath.Join(dir, f[1]), os.O_WRONLY|os.O_APPEND, 0o644)
+					if err == nil {
+						fh.Write(newB[:n])
+						fh.Close()
+					}
+				case "rename":
+					os.Rename(filepath.Join(dir, f[1]), filepath.Join(dir, f[2]))
+				}
+			}
+			for c := 0; c < k; c++ {
+				apply(calls[c], -1)
+			}
+			if j >= 0 {
+				apply(calls[k], j)
+			}
+			h := mailbox.NewDirHandler(dir, false)
+			h.Prepare()
+			cs := map[string]interface{}{"operation": op, "observed_calls": calls, "crash_after_calls": k, "bytes_of_write_in_flight": j}
+			for fi, lister := range []func() ([]*fbb.Message, error){h.Inbox, h.Outbox, h.Sent} {
+				if _, err := lister(); err != nil {
+					res.Fail(Failure{Kind: "oracle", Site: "folder-does-not-load", Case: cs, Detail: folderNames[fi] + ": " + err.Error()})
+				}
+			}
+			if raw, err := os.ReadFile(filepath.Join(dir, folder, mid+".b2f")); err == nil && op != "setsent" {
+				if !bytes.Equal(raw, oldB) && !bytes.Equal(raw, newB) {
+					ans := h.GetInboundAnswer(*fbb.NewProposal(mid, "t", fbb.Wl2kProposal, []byte("x")))
+					res.Fail(Failure{Kind: "oracle", Site: "incomplete-message-visible", Case: cs, Detail: fmt.Sprintf("%d of %d bytes under the final name; proposal answered %c", len(raw), len(newB), byte(ans))})
+				}
+			}
+			os.RemoveAll(dir)
+		}
+	}
 }
